@@ -219,6 +219,11 @@ impl RecvWindow {
         }
 
         if let Some(msg_len) = hdr.get_msg_len() {
+            if self.rem_msg_len > 0 {
+                warn!("RX data integrity failure: BEGINNING_SEGMENT while the previous SDU is still incomplete");
+                Err(ErrorCode::InvalidData)?;
+            }
+
             if msg_len <= mtu && !hdr.is_final() {
                 warn!("RX data integrity failure: An SDU that fits in a single BTP segment must be final");
                 Err(ErrorCode::InvalidData)?;
